@@ -165,11 +165,16 @@ fn main() {
             Tier::Quick => {
                 cfgs.push(Cfg { vsends: [2, 0], drops: 1, dups: 1, ..base.clone() });
                 cfgs.push(Cfg { vsends: [1, 1], nsends: [1, 0], drops: 1, dups: 0, advances: 2, ..base.clone() });
+                // after 1023 chunks each way the 10-bit sequence numbers have come round: the
+                // next chunk carries a smaller number than the acknowledgements still in flight
+                cfgs.push(Cfg { prefix_chunks: 1023, vsends: [1, 0], nsends: [0, 1], drops: 1, dups: 0, advances: 2, ..base.clone() });
             }
             Tier::Thorough => {
                 cfgs.push(Cfg { vsends: [3, 0], drops: 1, dups: 1, ..base.clone() });
                 cfgs.push(Cfg { vsends: [2, 0], drops: 2, dups: 1, advances: 3, ..base.clone() });
                 cfgs.push(Cfg { vsends: [1, 2], nsends: [1, 0], drops: 1, dups: 1, advances: 2, ..base.clone() });
+                cfgs.push(Cfg { prefix_chunks: 1023, vsends: [1, 1], nsends: [0, 1], drops: 1, dups: 1, advances: 2, ..base.clone() });
+                cfgs.push(Cfg { prefix_chunks: 1022, vsends: [2, 0], nsends: [0, 1], drops: 2, dups: 0, advances: 2, ..base.clone() });
             }
         }
     }
@@ -187,7 +192,7 @@ fn main() {
     run.add_evals(outcomes.iter().map(|o| o.transitions).sum());
     run.assume("fair suffix = every in-flight datagram delivered once per round, both sides tick when their reported deadline has passed; bound 24 rounds / 12 s simulated");
     run.finish(
-        "explicit-state exploration of two real endpoints; on every unique state the deadline invariant is checked and the fair suffix is executed on the real objects until the goal (ready, all vital chunks delivered and acked, nothing queued); plus a sweep over every payload length 0..1391 and boundary pairs with loss + resend under a wall-clock watchdog",
+        "explicit-state exploration of two real endpoints; on every unique state the deadline invariant is checked and the fair suffix is executed on the real objects until the goal (ready, all vital chunks delivered and acked, nothing queued), including configurations that start after 1022/1023 chunks each way so that the 10-bit sequence numbers come round while chunks and acknowledgements are in flight; plus a sweep over every payload length 0..1391 and boundary pairs with loss + resend under a wall-clock watchdog",
         true,
     );
 }
